@@ -1,6 +1,7 @@
 /-
   C17: the proof module the check builds and audits - every theorem of the slice (per-run and history theorems, request isolation
-  over the slice-header model, the keys of the constructed cookie handler).
+  over the slice-header model, the keys of the constructed cookie handler, the constructed relying party).
 -/
 import OidcModel.Proofs.C17IsoPkce
 import OidcModel.Proofs.C17Keys
+import OidcModel.Proofs.C17Construct
